@@ -15,8 +15,10 @@ def scan(d, where, keys, res, replay):
         if a.endswith(".probe"):
             probes += 1
             parts = v.split(":")
-            if any(p.startswith(("COUNT", "DISAGREE", "WALK-X", "ACCEPTED", "X(")) for p in parts) or \
-                    any(p not in ("E",) and not p.startswith(("n", "WALK-E")) for p in parts[1:]):
+            fwd_refused = any(p.startswith("WALK-E") for p in parts)
+            if any(p.startswith(("COUNT", "DISAGREE", "WALK-X", "WALK2-X", "ACCEPTED", "X(")) for p in parts) or \
+                    (any(p.startswith("WALK2-E") for p in parts) and not fwd_refused) or \
+                    any(p not in ("E",) and not p.startswith(("n", "WALK-E", "WALK2-E")) for p in parts[1:]):
                 k = "probe:%s:%s" % (where, a)
                 if k not in keys and len(keys) < 12:
                     keys.add(k)
